@@ -120,7 +120,7 @@ def run_harness(scripts, wd, name="t", shards=8, timeout=900):
                 tp1 = os.path.join(wd, "%s.%d.one.trace.ndjson" % (name, k))
                 open(sp1, "w").write(json.dumps(s, separators=(",", ":")) + "\n")
                 try:
-                    r = subprocess.run([RLH, "run", sp1, tp1], stdout=subprocess.PIPE, stderr=subprocess.STDOUT, timeout=180)
+                    r = subprocess.run([RLH, "run", sp1, tp1], stdout=subprocess.PIPE, stderr=subprocess.STDOUT, timeout=max(180, timeout // 8))
                     if r.returncode == 0:
                         tf.write(open(tp1).read())
                     else:
